@@ -220,3 +220,123 @@ def text_reader(F):
     except evalx.Unknown as ex:
         return None, "cannot evaluate from_str_bytes: %s" % ex
     return {"bad": bad, "evaluations": nev, "strict": strict, "body": b}, None
+
+
+def _sources(v):
+    """the input windows / bytes an abstract value was built from: set of ('win', lo, hi) / ('byte', off)"""
+    out = set()
+
+    def rec(x):
+        if isinstance(x, View) and x.base == "in":
+            out.add(("win", x.lo, x.hi))
+        elif isinstance(x, Elem) and x.base == "in":
+            out.add(("byte", x.at))
+        elif isinstance(x, tuple):
+            if len(x) == 3 and x[0] == "byte" and x[1] == "in":
+                out.add(("byte", x[2]))
+                return
+            for y in x:
+                rec(y)
+    rec(v)
+    return out
+
+
+def binary_reader(F):
+    """The array parser TryFrom<&[u8; N]> by abstract evaluation: (model, None) or (None, reason).  model['bad'] lists violations of:
+    Ok exactly when (strict) the checksum and length parts are valid; InvalidChecksum / LengthIsTooLarge only when they apply and
+    exactly that one when it is the only reason; the Ok value's fields are built from bytes [0,CK), [CK], [CK+1], [CK+2,N) of the input."""
+    from . import panics
+    arr, slc = layout.binary_reader(F)
+    if arr is None:
+        return None, "TryFrom<&[u8; N]> for inner FuzzyHash not found"
+    envs = layout.variant_envs(F)
+    hf = common.hash_fields(F)
+    if not envs or not hf:
+        return None, "variant constants / hash fields"
+    strict = "strict-parser" in F.features
+    S = sym.Sym(arr)
+    try:
+        paths = S.paths()
+    except sym.PathLimit:
+        return None, "path explosion"
+    if any(p.end == "loop" for p in paths):
+        return None, "the array parser contains a loop"
+    evalx.set_target(F)
+    bad = []
+    nev = 0
+    try:
+        for vname, env in envs:
+            N, CK = env["SIZE_IN_BYTES"], env["SIZE_CKSUM"]
+            ref = {"checksum": {("win", 0, CK)}, "lvalue": {("byte", CK)}, "qratios": {("byte", CK + 1)}, "body": {("win", CK + 2, N)}}
+            cv = {k.split(":", 1)[1].rsplit("::", 1)[-1]: v for k, v in env.items() if k.startswith("assoc:")}
+            cps = {k: v for k, v in env.items() if not k.startswith("assoc:") and isinstance(v, int)}
+            for vc, vl in (itertools.product((True, False), repeat=2) if strict else [(True, True)]):
+                calls = dict(_handlers(N))
+
+                def is_valid(x, vc=vc, vl=vl, ref=ref):
+                    src = _sources(x)
+                    if src == ref["checksum"]:
+                        return int(vc)
+                    if src == ref["lvalue"]:
+                        return int(vl)
+                    raise evalx.Unknown("is_valid of a value built from %s" % sorted(src))
+                calls["::is_valid"] = is_valid
+
+                def try_into(S_, bb, vals, cps=cps):
+                    tgt = panics.try_into_target_len(F, S_.b, bb) if bb is not None else None
+                    v = vals[0] if len(vals) == 1 else None
+                    if tgt is None or not isinstance(v, View):
+                        raise evalx.Unknown("try_into of %r" % (vals,))
+                    tl = tgt[1] if tgt[0] == "val" else cps.get(tgt[1])
+                    if tl is None:
+                        raise evalx.Unknown("try_into target length %s" % (tgt,))
+                    return ("Ok", ("arr", v)) if v.hi - v.lo == tl else ("Err", ("obj", "TryFromSliceError"))
+
+                def load2(basev, iv):
+                    if isinstance(basev, View) and isinstance(iv, int):
+                        if not (0 <= iv < basev.hi - basev.lo):
+                            raise evalx.Panics("index %d out of range of a %d-byte view" % (iv, basev.hi - basev.lo))
+                        return ("byte", basev.base, basev.lo + iv)
+                    return None
+                asg = {"symbolic": True, "params": {1: View("in", 0, N)}, "cparams": cps, "cpath_values": cv, "calls": calls,
+                       "xcalls": {"TryInto<U>>::try_into": try_into, "for &'a [T; N]>::try_from": try_into}, "load2": load2}
+                nev += 1
+                try:
+                    k, v = _classify(evalx.run(S, F, paths, asg))
+                except evalx.Panics as ex:
+                    k, v = "panic", str(ex)
+                where = "%s%s" % (vname, ", checksum %s, length code %s" % ("valid" if vc else "invalid", "valid" if vl else "invalid") if strict else "")
+                well = vc and vl
+                msg = None
+                if k == "panic":
+                    msg = "panics (%s)" % v
+                elif k == "other":
+                    msg = "returns %r" % (v,)
+                elif k == "Ok":
+                    if not well:
+                        msg = "is accepted"
+                    else:
+                        vals = v[2:] if isinstance(v, tuple) and v[:1] == ("adt",) else None
+                        if vals is None or len(vals) != 4:
+                            msg = "Ok value %r" % (v,)
+                        else:
+                            for part in PARTS:
+                                got = _sources(vals[hf[part]])
+                                if got != ref[part]:
+                                    msg = "the %s field is built from %s of the input; reference %s" % (part, sorted(got), sorted(ref[part]))
+                else:
+                    if well:
+                        msg = "is rejected with %s" % v
+                    elif v == "InvalidChecksum" and vc:
+                        msg = "reports InvalidChecksum although the checksum is valid"
+                    elif v == "LengthIsTooLarge" and vl:
+                        msg = "reports LengthIsTooLarge although the length code is valid"
+                    elif v not in ("InvalidChecksum", "LengthIsTooLarge"):
+                        msg = "reports %s" % v
+                    elif vc != vl and v != ("InvalidChecksum" if not vc else "LengthIsTooLarge"):
+                        msg = "reports %s; the only thing wrong is %s" % (v, "InvalidChecksum" if not vc else "LengthIsTooLarge")
+                if msg and len(bad) < 6:
+                    bad.append("%s: %s" % (where, msg))
+    except evalx.Unknown as ex:
+        return None, "cannot evaluate the array parser: %s" % ex
+    return {"bad": bad, "evaluations": nev, "strict": strict, "body": arr}, None
